@@ -72,6 +72,10 @@ func TestProp(t *testing.T) {
 	// an upstream that opts out of request signing (and streams): the handler chain in front of it is a different one
 	y3, e6 := sut.NewProxyStack(sut.ProxyOpts{Signer: true, Upstreams: []sut.UpstreamSpec{{Service: "unsigned", From: "unsigned.sso.test", AllowedEmailDomains: []string{"corp.test"}, SkipAuthRegex: []string{"^/public/"},
 		SkipRequestSigning: true, FlushInterval: 50 * time.Millisecond}}})
+	// inject_request_headers whose keys are spelled non-canonically (lower / upper / mixed case): they name the
+	// same headers, the session's values still win (added after seeded change C03l)
+	y4, e7 := sut.NewProxyStack(sut.ProxyOpts{Upstreams: []sut.UpstreamSpec{{Service: "injectlc", From: "injectlc.sso.test", AllowedEmailDomains: []string{"corp.test"}, SkipAuthRegex: []string{"^/public/"},
+		InjectRequestHeaders: map[string]string{"x-forwarded-email": "injected@config.test", "X-FORWARDED-USER": "injected", "x-Forwarded-groups": "injected-group", "x-custom": "cfg"}}}})
 	d1, e3 := sut.NewDirectProxy(sut.DirectOpts{Host: "direct.sso.test", PassAccessToken: true, SkipAuthRegex: []string{"^/public/"}, AllowedEmailDomains: []string{"corp.test"}, Signer: true})
 	d2, e4 := sut.NewDirectProxy(sut.DirectOpts{Host: "pre.sso.test", SkipAuthPreflight: true, SkipAuthRegex: []string{"^/public/"}, AllowedEmailDomains: []string{"corp.test"}})
 	d3, e5 := sut.NewDirectProxy(sut.DirectOpts{Host: "grp.sso.test", PassAccessToken: true, SkipAuthRegex: []string{"^/public/"}, AllowedGroups: []string{"eng", "ops", "qa"}})
@@ -82,6 +86,7 @@ func TestProp(t *testing.T) {
 		mk("direct-pass-token", d1, e3, "direct.sso.test", true, false, false),
 		mk("direct-preflight", d2, e4, "pre.sso.test", false, true, false),
 		mk("yaml-skip-request-signing", y3, e6, "unsigned.sso.test", false, false, false),
+		mk("yaml-inject-noncanonical-keys", y4, e7, "injectlc.sso.test", false, false, true),
 	}
 	for _, s := range stacks {
 		if s == nil {
